@@ -7,25 +7,31 @@ namespace Tmv.Drv.C03
 open Tmv Tmv.Cons Tmv.Sync
 
 structure St where
-  cfg : Option Cfg
+  cfg : Option SCfg
   ids : Nat
   net : Net
 
 def natList (s : String) : Option (List Nat) := (splitComma s).mapM String.toNat?
 
-def parseCfg (toks : List String) : Option (Cfg × Nat × List Nat) := do
+def parseCfg (toks : List String) : Option (SCfg × Nat × List Nat) := do
   let n ← (← kv toks "n").toNat?
   let powers ← natList (← kv toks "powers")
   let props ← natList (← kv toks "proposers")
   let invalid ← natList (← kv toks "invalid")
   let correct ← natList (← kv toks "correct")
   let ids ← (← kv toks "ids").toNat?
+  let tmo ← natList (← kv toks "tmo")
+  let skew ← (← kv toks "skew").toNat?
+  let tm ← match tmo with
+    | [a, b, c, d, e, f] => some (⟨a, b, c, d, e, f⟩ : Timeouts)
+    | _ => none
   if powers.length ≠ n ∨ n = 0 ∨ props.isEmpty ∨ correct.isEmpty then none else
   if correct.any (· ≥ n) ∨ !correct.Pairwise (· < ·) then none else
-  pure ({ n := n, power := fun i => powers.getD i 0, self := none,
-          proposer := fun k => props.getD k 0, valid := fun b => !invalid.contains b,
-          ownBlock := 0, waitForTxs := false, needProofBlock := true, emptyInterval := false,
-          checkHRS := false }, ids, correct)
+  pure ({ cfg := { n := n, power := fun i => powers.getD i 0, self := none,
+                   proposer := fun k => props.getD k 0, valid := fun b => !invalid.contains b,
+                   ownBlock := 0, waitForTxs := false, needProofBlock := true, emptyInterval := false,
+                   checkHRS := false },
+          tmo := tm, skew := skew }, ids, correct)
 
 def parseBid (s : String) : Option Bid :=
   if s = "nil" then some none else s.toNat?.map some
@@ -91,11 +97,12 @@ def showHV (ids : Nat) (h : HVS) : String :=
   ",".intercalate (rounds.filterMap fun r =>
     (h.getRound r).map fun rvs => s!"{r}:P{showVS ids rvs.prevotes}:C{showVS ids rvs.precommits}")
 
-def showPending : Option (Nat × Step) → String
+def showPending : Option (Nat × Step × Nat) → String
   | none => "-"
-  | some (r, st) => s!"{r}/{stepName st}"
+  | some (r, st, e) => s!"{r}/{stepName st}@{e}"
 
-def showNode (c : Cfg) (ids : Nat) (nd : Node) : String :=
+def showNode (sc : SCfg) (ids : Nat) (nd : Node) : String :=
+  let c := sc.cfg
   let s := nd.s
   let head := s!"n{nd.idx} "
   if s.halted then head ++ "halted" else
@@ -113,7 +120,7 @@ def showNode (c : Cfg) (ids : Nat) (nd : Node) : String :=
     s!"tk={showPending nd.tick.pending} hr={s.votes.round} hv={showHV ids s.votes}"
 
 /-- answer of an op that acts on one node: its state and what it emitted during the op -/
-def nodeAnswer (c : Cfg) (ids : Nat) (before after : Net) (i : Nat) : String :=
+def nodeAnswer (c : SCfg) (ids : Nat) (before after : Net) (i : Nat) : String :=
   match before.nodes[i]?, after.nodes[i]? with
   | some a, some b =>
     let news := b.s.out.drop a.s.out.length
@@ -161,14 +168,15 @@ def step (st : St) (toks : List String) : St × String :=
         match posOf net rest "node", (kv rest "peer").bind String.toNat?,
               (kv rest "t").bind parseVType, (kv rest "r").bind String.toNat?, (kv rest "b").bind parseBid with
         | some i, some peer, some t, some r, some b =>
-          if peer = 0 ∨ peer > c.n ∨ net.nodes.any (fun nd => nd.idx + 1 = peer) then (st, "refused") else
+          if peer = 0 ∨ peer > c.cfg.n ∨ net.nodes.any (fun nd => nd.idx + 1 = peer) then (st, "refused") else
           let net' := net.input c i (.peerMaj23 r t peer b)
           ({ st with net := net' }, nodeAnswer c st.ids net net' i)
         | _, _, _, _, _ => (st, "bad-op")
       | ["fire", a] =>
         match posOf net [a] "node" with
         | some i =>
-          if !net.fireAllowed then (st, "not-idle") else
+          if net.synced ∧ !net.closed then (st, "not-idle") else
+          if !net.fireAllowed c i then (st, "not-due") else
           match (net.nodes[i]?).bind (·.tick.pending) with
           | none => (st, "none")
           | some _ =>
@@ -187,7 +195,7 @@ def step (st : St) (toks : List String) : St × String :=
         let dec := net.nodes.map fun nd => match nd.s.decided with
           | some (b, r) => s!"{b}@{r}" | none => if nd.s.halted then "halted" else "-"
         let pend := net.nodes.map fun nd => showPending nd.tick.pending
-        (st, s!"end decided={",".intercalate dec} pending={",".intercalate pend} closed={if net.closed then 1 else 0} R={net.maxRound}")
+        (st, s!"end decided={",".intercalate dec} pending={",".intercalate pend} closed={if net.closed then 1 else 0} R={net.maxRound} now={net.now}")
       | _ => (st, "bad-op")
 
 def machine : Machine := { σ := St, init := ⟨none, 0, Net.init []⟩, step := step }
